@@ -18,8 +18,15 @@ apt.wp  <dev> <host> <id> <p1> <p2>                   -> <hex written>
 apt.wd  <dev> <host> <id> <layout> <v,v,…>            -> <hex written>
 apt.pack <layout> <v,v,…>                             -> <hex>
 apt.ask <dev> <host> <layout> <bufhex>                -> ok <v,v,…>|buf=<hex>  |  exc:<T>|buf=<hex>
+apt.askt <dev> <host> <layout> <dflt|N> <t|N> <bufhex>-> as apt.ask, then |rd=<nbytes>:<timeout|N>,…
+k10.read <bufhex>                                     -> ok <class> <v,v,…>|buf=<hex>  |  exc:<T>|buf=<hex>
+k10.wait <class> <t0> <step> <timeout> <bufhex>       -> same, then |tmo=<t,t,…>
+k10.send <msghex> <bufhex>                            -> ok|w=<hex>|buf=<hex>  |  exc:<T>|w=.|buf=<hex>
+k10.create <class> <v,v,…>                            -> <hex>
 t2.reset                                              -> ok
+t2.set <counter>                                      -> ok        (carried counter, < 2^64)
 t2.proc <r,r,…>                                       -> c=<counter> ev=<type>:<ts>,…
+t3.proc <P> <R> <counter> <r,r,…>                     -> c=<counter> ev=<type>:<ts>,…     (stateless)
 ```
 -/
 open QmiModel
@@ -67,6 +74,17 @@ def findLayout (nm : String) : Option Apt.Layout :=
 def mkProto (dev host : Nat) : Apt.Proto :=
   { headerSize := Gen.Layouts.aptHeaderSize, hdrParams := Gen.Layouts.aptHdrParams, hdrData := Gen.Layouts.aptHdrData,
     dataFlag := Gen.Layouts.aptDataFlag, devAddr := dev, hostAddr := host }
+
+def parseOptNat (s : String) : Option (Option Nat) :=
+  if s == "N" then some none else s.toNat?.map some
+
+def showOptNat : Option Nat → String
+  | none => "N"
+  | some n => toString n
+
+def k10 : Apt.K10 := Gen.Layouts.k10
+
+def findK10 (nm : String) : Option Apt.Layout := k10.table.find? (fun l => l.name == nm)
 
 def showEvents (es : List T2.Event) : String :=
   if es.isEmpty then "." else ",".intercalate (es.map fun e => s!"{e.typ}:{e.ts}")
@@ -133,13 +151,57 @@ def stepLine (c : Nat) (line : String) : Nat × String :=
       | (.ok vs, b) => (c, s!"ok {showInts vs}|buf={Drv.hex b}")
       | (.error e, b) => (c, aptExc e ++ s!"|buf={Drv.hex b}")
     | _, _, _, _ => (c, "bad-op")
+  | ["apt.askt", dev, host, nm, dflt, t, x] =>
+    match dev.toNat?, host.toNat?, findLayout nm, parseOptNat dflt, parseOptNat t, Drv.unhex x with
+    | some dev, some host, some l, some dflt, some t, some buf =>
+      let rd := ",".intercalate ((Apt.askReads (mkProto dev host) l dflt t buf).map fun (n, tm) => s!"{n}:{showOptNat tm}")
+      match Apt.ask (mkProto dev host) l buf with
+      | (.ok vs, b) => (c, s!"ok {showInts vs}|buf={Drv.hex b}|rd={rd}")
+      | (.error e, b) => (c, aptExc e ++ s!"|buf={Drv.hex b}|rd={rd}")
+    | _, _, _, _, _, _ => (c, "bad-op")
+  | ["k10.read", x] =>
+    match Drv.unhex x with
+    | some buf =>
+      match Apt.k10Read k10 buf with
+      | (.ok (mt, vs), b) => (c, s!"ok {mt.name} {showInts vs}|buf={Drv.hex b}")
+      | (.error e, b) => (c, aptExc e ++ s!"|buf={Drv.hex b}")
+    | none => (c, "bad-op")
+  | ["k10.wait", nm, t0, step, tmo, x] =>
+    match t0.toNat?, step.toNat?, tmo.toNat?, Drv.unhex x with
+    | some t0, some step, some tmo, some buf =>
+      let showT (ts : List Nat) := if ts.isEmpty then "." else ",".intercalate (ts.map toString)
+      match Apt.k10Wait k10 nm ⟨t0, step⟩ tmo buf with
+      | (.ok (mt, vs), b, ts) => (c, s!"ok {mt.name} {showInts vs}|buf={Drv.hex b}|tmo={showT ts}")
+      | (.error e, b, ts) => (c, aptExc e ++ s!"|buf={Drv.hex b}|tmo={showT ts}")
+    | _, _, _, _ => (c, "bad-op")
+  | ["k10.send", m, x] =>
+    match Drv.unhex m, Drv.unhex x with
+    | some m, some buf =>
+      match Apt.k10Send k10 m buf with
+      | (none, some w, b) => (c, s!"ok|w={Drv.hex w}|buf={Drv.hex b}")
+      | (some e, _, b) => (c, aptExc e ++ s!"|w=.|buf={Drv.hex b}")
+      | (none, none, b) => (c, s!"ok|w=.|buf={Drv.hex b}")
+    | _, _ => (c, "bad-op")
+  | ["k10.create", nm, vs] =>
+    match findK10 nm, parseInts vs with
+    | some l, some vs => (c, Drv.hex (Apt.k10Create k10 l vs))
+    | _, _ => (c, "bad-op")
   | ["t2.reset"] => (0, "ok")
+  | ["t2.set", n] => match n.toNat? with
+    | some n => if n < T2.word then (n, "ok") else (c, "bad-op")
+    | none => (c, "bad-op")
   | ["t2.proc", rs] =>
     match parseNats rs with
     | some rs =>
-      let (c', es) := T2.process t2p c rs
+      let (c', es) := T2.processU64 t2p c rs
       (c', s!"c={c'} ev={showEvents es}")
     | none => (c, "bad-op")
+  | ["t3.proc", pp, rr, c0, rs] =>
+    match pp.toNat?, rr.toNat?, c0.toNat?, parseNats rs with
+    | some pp, some rr, some c0, some rs =>
+      let (c', es) := T2.processT3 Gen.Layouts.t3 pp rr c0 rs
+      (c, s!"c={c'} ev={showEvents es}")
+    | _, _, _, _ => (c, "bad-op")
   | _ => (c, "bad-op")
 
 end C15B
